@@ -32,6 +32,8 @@ pub struct MinDev {
     /// asks for mutable access to the register (the only hook the library offers for that)
     pub pending_oper: Option<u16>,
     pub pending_ques: Option<u16>,
+    /// what each stored message executed by `TEST:MACRo` / `TEST:SMACro` ended with, in call order
+    pub nested: ArrayVec<Option<Error>, 4>,
 }
 
 impl MinDev {
@@ -47,6 +49,7 @@ impl MinDev {
             rst_calls: 0,
             pending_oper: None,
             pending_ques: None,
+            nested: ArrayVec::new(),
         }
     }
     pub fn queue_len(&self) -> usize {
@@ -183,6 +186,32 @@ impl Command<MinDev> for FailCommand {
     }
 }
 
+/// `TEST:MACRo "<message>"` / `TEST:SMACro "<message>"`: the handler executes a stored program
+/// message through `Node::run` on the tree it is mounted in, with the device and the context it
+/// was given (the way a `*TRG` / `*DDT` style command would) and a scratch response buffer.
+/// The stored message reports its own failure through the device's error hook like any other
+/// message. MACRo then succeeds regardless; SMACro fails with -272 Macro execution error.
+pub struct MacroCommand {
+    pub alt_tree: bool,
+    pub strict: bool,
+}
+impl Command<MinDev> for MacroCommand {
+    fn event(&self, device: &mut MinDev, context: &mut Context, mut params: Parameters) -> Result<()> {
+        let text: &[u8] = params.next_data()?;
+        let mut scratch: ArrayVec<u8, 16384> = ArrayVec::new();
+        let tree = if self.alt_tree { &MIN_TREE_ALT } else { &MIN_TREE };
+        let r = tree.run(text, device, context, &mut scratch);
+        let _ = device.nested.try_push(r.err()); // (a fixed array: the device must not allocate, C11 counts)
+        match (r, self.strict) {
+            (Err(_), true) => Err(Error::new(ErrorCode::MacroExecutionError)),
+            _ => Ok(()),
+        }
+    }
+    fn query(&self, device: &mut MinDev, context: &mut Context, params: Parameters, _response: ResponseUnit) -> Result<()> {
+        self.event(device, context, params)
+    }
+}
+
 /// `TEST:U8 <u8>` / `TEST:U8? <u8>`: a typed parameter (type, range and arity faults).
 pub struct U8Command;
 impl Command<MinDev> for U8Command {
@@ -209,7 +238,7 @@ pub const MIN_TREE: Node<'static, MinDev> = Root![
     ieee488_wai!(),
     scpi_status!(),
     scpi_system!(),
-    Node::Branch { name: b"TEST", default: false, sub: &[Node::Leaf { name: b"FAIL", default: false, handler: &FailCommand }, Node::Leaf { name: b"U8", default: false, handler: &U8Command }] }
+    Node::Branch { name: b"TEST", default: false, sub: &[Node::Leaf { name: b"FAIL", default: false, handler: &FailCommand }, Node::Leaf { name: b"U8", default: false, handler: &U8Command }, Node::Leaf { name: b"MACRo", default: false, handler: &MacroCommand { alt_tree: false, strict: false } }, Node::Leaf { name: b"SMACro", default: false, handler: &MacroCommand { alt_tree: false, strict: true } }] }
 ];
 
 /// The mandated common commands as a shared block, the way a family of
@@ -265,7 +294,7 @@ pub const MIN_TREE_ALT: Node<'static, MinDev> = Node::root(&[
         ],
     ),
     scpi_system!(),
-    Node::branch(b"TEST", &[Node::leaf(b"FAIL", &FailCommand), Node::leaf(b"U8", &U8Command)]),
+    Node::branch(b"TEST", &[Node::leaf(b"FAIL", &FailCommand), Node::leaf(b"U8", &U8Command), Node::leaf(b"MACRo", &MacroCommand { alt_tree: true, strict: false }), Node::leaf(b"SMACro", &MacroCommand { alt_tree: true, strict: true })]),
 ]);
 
 /// A plain IEEE 488.2 instrument (no SCPI status subsystem, no error queue) that relies on the
